@@ -149,6 +149,9 @@ structure Tables where
   substSimultaneous : Bool                    -- `expr.subs(d, simultaneous=True)` ?
   tupleSimultaneous : Bool                    -- `a, b = e1, e2`: all right-hand sides translated before any binding ?
   unknownStmtRefused : Bool                   -- statement kinds the translator does not handle: refuse (true) / skip silently (false)
+  branchCopies : Bool                         -- each branch of an `if` is translated against a copy of `ctx.symbols` ?
+  fallThroughChecked : Bool                   -- `_check_branch`: a branch that can fall through is refused unless … ?
+  testsBoolean : Bool                         -- `_handle_test`: an if / IfExp test must be a Boolean that is not a Symbol ?
 deriving Repr
 
 /-! ## Arithmetic shared by the two semantics (kept separate per side below) -/
@@ -502,6 +505,41 @@ def bindAll (ctx : Syms) : List String → List SExpr → Syms
   | x :: xs, s :: ss => bindAll ((x, s) :: ctx) xs ss
   | _, _ => ctx
 
+mutual
+/-- `_always_returns`: every path through the statement ends in `return <expr>` -/
+def stmtReturns : PyStmt → Bool
+  | .ret _ => true
+  | .ifs _ t e => bodyReturns t && bodyReturns e
+  | _ => false
+def bodyReturns : List PyStmt → Bool
+  | [] => false
+  | s :: rest => stmtReturns s || bodyReturns rest
+end
+
+/-- a non-empty list of plain single-name assignments -/
+def assignOnly : List PyStmt → Bool
+  | [] => false
+  | [.assign _ _] => true
+  | .assign _ _ :: rest => assignOnly rest
+  | _ => false
+
+/-- `_check_branch(branch, rest)`: the branch returns on every path, or it consists of plain assignments and all
+that follows the `if` is nothing or `return <the last name it assigns>` -/
+def branchOk (rest : List PyStmt) (b : List PyStmt) : Bool :=
+  bodyReturns b ||
+    (assignOnly b &&
+      match rest, lastAssigned b with
+      | [], _ => true
+      | [.ret (.name n)], some x => n == x
+      | _, _ => false)
+
+/-- `_handle_test`: `isinstance(c, bool) or (isinstance(c, Boolean) and not isinstance(c, Symbol))` -/
+def isBoolSorted : SExpr → Bool
+  | .rel _ _ _ => true
+  | .and _ _ => true
+  | .boolLit _ => true
+  | _ => false
+
 /-- one link of a comparison chain -/
 def cmpOne (T : Tables) (op : CmpOp) (l r : SExpr) : TR (Option SExpr) :=
   match T.cmpops.lookup op with
@@ -573,9 +611,12 @@ def trExpr (T : Tables) (P : Prog) : Nat → List (String × GVal) → Syms → 
       | c :: cs => .ok (andAll c cs)
     | .ife c t e => do
       let cond ← trExpr T P f G ctx c
-      let tt ← trExpr T P f G ctx t
-      let ee ← trExpr T P f G ctx e
-      mkPiecewise [(tt, cond), (ee, .boolLit true)]
+      if T.testsBoolean && !isBoolSorted cond then
+        .error (.refused "NotImplementedError: only comparisons can be used as a condition")
+      else do
+        let tt ← trExpr T P f G ctx t
+        let ee ← trExpr T P f G ctx e
+        mkPiecewise [(tt, cond), (ee, .boolLit true)]
     | .call func args => do
       let sargs ← trArgs T P f G ctx args
       match resolveCall G func with
@@ -620,17 +661,27 @@ def trLoop (T : Tables) (P : Prog) : Nat → List (String × GVal) → List PySt
         | none => .error (.refused "ValueError: no return value found")
     | .ifs c t e :: rest => do
       let cond ← trExpr T P f G ctx c
-      let (ifE, ctx1) ← trLoop T P f G t [] t false ctx        -- = _handle_fn_body(node.body, ctx)
-      let pieces1 := pieces ++ [(ifE, cond)]
-      match e with
-      | [] =>
-        if rest.isEmpty && isElif then .error (.refused "ValueError: elif node is not in body")
-        else trLoop T P f G body pieces1 rest false ctx1
-      | [.ifs c2 t2 e2] => trLoop T P f G body pieces1 (.ifs c2 t2 e2 :: rest) true ctx1
-      | _ => do
-        let (elseE, ctx2) ← trLoop T P f G e [] e false ctx1   -- = _handle_fn_body(node.orelse, ctx)
-        let r ← mkPiecewise (pieces1 ++ [(elseE, .boolLit true)])
-        pure (r, ctx2)
+      if T.testsBoolean && !isBoolSorted cond then
+        .error (.refused "NotImplementedError: only comparisons can be used as a condition")
+      else if T.fallThroughChecked && !branchOk rest t then
+        .error (.refused "NotImplementedError: branch without return followed by more than `return <its last name>`")
+      else do
+        -- = _handle_fn_body(node.body, ctx.updated(symbols=dict(ctx.symbols)))   (a copy: ctx is kept)
+        let (ifE, ctxB) ← trLoop T P f G t [] t false ctx
+        let ctx1 := if T.branchCopies then ctx else ctxB
+        let pieces1 := pieces ++ [(ifE, cond)]
+        match e with
+        | [] =>
+          if rest.isEmpty && isElif then .error (.refused "ValueError: elif node is not in body")
+          else trLoop T P f G body pieces1 rest false ctx1
+        | [.ifs c2 t2 e2] => trLoop T P f G body pieces1 (.ifs c2 t2 e2 :: rest) true ctx1
+        | _ =>
+          if T.fallThroughChecked && !branchOk rest e then
+            .error (.refused "NotImplementedError: branch without return followed by more than `return <its last name>`")
+          else do
+            let (elseE, ctxE) ← trLoop T P f G e [] e false ctx1   -- = _handle_fn_body(node.orelse, copy of ctx)
+            let r ← mkPiecewise (pieces1 ++ [(elseE, .boolLit true)])
+            pure (r, if T.branchCopies then ctx1 else ctxE)
     | .ret v :: _ => do
       let s ← trExpr T P f G ctx v
       if pieces.isEmpty then pure (s, ctx)
@@ -746,7 +797,8 @@ def evalExpr (P : Prog) : Nat → List (String × GVal) → List String → PyEn
       match G.lookup p with
       | some (.flt q) => some (.num q)
       | some (.int q) => some (.num q)
-      | some (.special _ q) => some (.num q)
+      -- `math.pi`, `math.e`, `math.tau` read through an attribute denote π, e, 2π: no rational value in the model
+      -- (the translator maps them to sympy.pi, …; the double is only their approximation)
       | _ => none
     | .un op a =>
       match evalExpr P f G L env a with
